@@ -1,10 +1,11 @@
-(* C19 -- never_early, proved for every comparison record that is the intended one (cmp_ok) and every schedule in
-   the deferred branch of handle_timeout leaves the bookkeeping untouched (/repo 918b3df): EVERY schedule: a handler never runs before
-   (timer time at constructor entry) + delay.
-   The invariant: with K = now + rem - time_so_far - last_time_requested (the offset between timer time and the
-   program's virtual clock, constant under ticks, and only ever growing when a call re-arms the timer),
-   every pending (deadline, id) satisfies  created_at id + delay id <= deadline + K,  and the head of the list is
-   not after time_so_far + last_time_requested, the virtual time of the next shot. *)
+(* C19 -- never_early, for every comparison record that is the intended one (cmp_ok) and EVERY schedule (expiries may
+   be delivered inside critical sections: since /repo 918b3df the deferred branch of handle_timeout only arms the
+   retry shot and leaves the bookkeeping untouched): a handler never runs before (timer time at constructor entry) + delay.
+   The invariant: with Kp = min (now + rem - time_so_far - last_time_requested) (now - time_so_far), a lower bound of the
+   offset between timer time and the program's virtual clock that never decreases under ticks, deferred expiries and
+   firings, every pending (deadline, id) satisfies  created_at id + delay id <= deadline + Kp;  the head of the list is
+   not after time_so_far + last_time_requested, the virtual time of the next shot;  and a call that has read the timer
+   carries an offset k0 fixed at the reading (GetF), which is what it re-arms with. *)
 Require Import ZArith List Bool Lia.
 Require Import PPLV.Watchdog.TimeSpec PPLV.gen.Facts_Time PPLV.Watchdog.Time PPLV.Watchdog.WD
                PPLV.Watchdog.WDProofs PPLV.Watchdog.WDOrder.
